@@ -13,6 +13,7 @@ func All() map[string]core.Prop {
 		"C06": C06{},
 		"C07": C07{},
 		"C11": C11{},
+		"C12": C12{},
 		"C13": C13{},
 		"C15": C15{},
 		"C16": C16{},
